@@ -32,6 +32,16 @@ STAGES = {
             S("matrix", "^TestC09$", shards=(8, 16)),
             S("mixed", "^TestC09Mixed$", quick=3000, thorough=30000, shards=(2, 16))],
     "C10": [S("programs", "^TestC10$", quick=2500, thorough=15000, shards=(4, 16))],
+    "C11": [S("requests", "^TestC11$", quick=6000, thorough=40000, shards=(2, 16)),
+            S("server", "^TestC11Server$", quick=400, thorough=4000, shards=(1, 4))],
+    "C12": [S("origins", "^TestC12$", quick=30000, thorough=200000, shards=(2, 16)),
+            S("fuzz", "^$", tiers=("thorough",), shards=(1, 1), fuzz={"target": "^FuzzC12$", "time": {"quick": "10s", "thorough": "120s"}}, timeout=("10m", "30m"))],
+    "C13": [S("responses", "^TestC13$", quick=8000, thorough=40000, shards=(2, 16)),
+            S("keys", "^TestC13Keys$")],
+    "C14": [S("regress", "^TestC14Regress$|^TestC14LibLib$"),
+            S("server-enum", "^TestC14Server$", shards=(4, 16)),
+            S("client-enum", "^TestC14Client$", shards=(1, 4)),
+            S("server-lists", "^TestC14ServerLists$", quick=2500, thorough=20000, shards=(3, 16))],
     "C15": [S("outbound", "^TestC15$", quick=3000, thorough=20000, shards=(3, 16)),
             S("inbound", "^TestC15Inbound$", quick=1500, thorough=10000, shards=(3, 16))],
     "C18": [S("regress", "^TestC18Regress$"),
